@@ -128,7 +128,10 @@ class NsHandler:
 
     def maybe_capitalize(self, tag):
         if self.capitalize:
-            return tag[0:1].upper() + tag[1:]
+            first = tag[0:1].upper()
+            # "ß".upper() is "SS": MediaWiki leaves such a first letter alone
+            if len(first) == 1:
+                return first + tag[1:]
         return tag
 
     def splitname(self, title, defaultns=0):
